@@ -37,11 +37,13 @@ Ptr(e) == Le2(e.address_lo) \o Le2(e.address_hi)
 \* does the parameter group a stack hands to send_pgn match the one the model expects?
 MatchPdu(h, e) ==
     /\ h.k = "pdu" /\ h.pgn = e.pgn /\ h.da = e.da
+    \* DM14 / DM15 byte 2: bits 6-8 = upper bits of the 11-bit length (0: at most 255 objects here), bit 1 reserved = 1
+    /\ (e.pgn \in {PGN_DM14, PGN_DM15} /\ Len(e.data) = 8) => (e.data[2] \div 32 = 0 /\ e.data[2] % 2 = 1)
     /\ CASE e.pgn = PGN_DM14 -> Len(e.data) = 8 /\ Dm14Dec(e.data) = h.f
          [] e.pgn = PGN_DM15 -> /\ Len(e.data) = 8
                                 /\ LET d == Dm15Dec(e.data) IN
                                    /\ d.count = h.f.count /\ d.status = h.f.status /\ d.seed = h.f.seed /\ d.direct = h.f.direct
-                                   /\ (h.f.status = ST_FAILED => (d.edcp = h.f.edcp /\ (h.f.err = None \/ d.err = h.f.err)))
+                                   /\ d.edcp = h.f.edcp /\ (h.f.err = None \/ d.err = h.f.err)     \* "not available" (all ones) unless failed
          [] OTHER -> /\ Dm16Data(e.data) = h.f.data
                      /\ e.data[1] = (IF Len(h.f.data) > 7 THEN 255 ELSE Len(h.f.data))
                      /\ \A j \in (Len(h.f.data) + 2)..Len(e.data) : e.data[j] = 255
